@@ -116,6 +116,9 @@ def gen_case(rng, stream: str):
     pool = DYADIC if rng.random() < 0.55 else DYADIC + NONDYADIC + NONDYADIC
     case = {"det": rng.choice(["CCD", "CMOS", "APD", "MKID"]), "rows": rows, "cols": cols,
             "h": rng.choice(pool), "w": rng.choice(pool), "ops": []}
+    if rng.random() < 0.35:
+        case["geo_via"] = rng.choice(["setter-vh", "setter-hv", "processor-vh", "processor-hv"])
+        case["geo0"] = [rng.choice([x for x in DYADIC + NONDYADIC if x not in (case["h"], case["w"])]) for _ in range(2)]
     p_out = {"inside": 0.0, "outside": 0.5, "remove": 0.15}[stream]
     n = rng.choice([2, 3, 4, 6, 8, 10])
     for _ in range(n):
@@ -139,6 +142,10 @@ def gen_case(rng, stream: str):
         elif stream == "remove":
             ids = [] if rng.random() < 0.2 else sorted(rng.sample(range(12), rng.randint(1, 4)))
             case["ops"].append(["remove", ids])
+            while rng.random() < 0.5:      # further removals on the now non-consecutive index labels
+                if rng.random() < 0.4:
+                    case["ops"].append(["read"])
+                case["ops"].append(["remove", sorted(rng.sample(range(10), rng.randint(1, 3)))])
         else:
             case["ops"].append(["read"])
     case["ops"].append(["read"])
@@ -195,6 +202,32 @@ def directed_alias_cases():
         dict(base, ops=[["array", z, "float64"], A, ["read"], A, ["read"], ["reset"], A, B, A, ["read"]]),
         dict(base, ops=[A, ["clusters", [[4, 5.0, 5.0]], "dataframe", None], A, ["mutate", 0, z], ["read"]]),
     ]
+
+
+def directed_remove_cases():
+    """several partial removals in a row: after the first one the index labels are no longer 0..n-1"""
+    base = {"det": "CCD", "rows": 2, "cols": 3, "h": 10.0, "w": 10.0}
+    six = [[1 + k, 5.0 + 10.0 * (k // 3), 5.0 + 10.0 * (k % 3)] for k in range(6)]      # one cluster per pixel, numbers 1..6
+    out = []
+    for first, second in (([1], [3]), ([0], [1]), ([0, 2], [4, 5]), ([4], [5]), ([2], [2, 3])):
+        out.append(dict(base, ops=[["clusters", six, "add_charge", None], ["remove", first], ["remove", second], ["read"]]))
+        out.append(dict(base, ops=[["clusters", six, "dataframe", None], ["read"], ["remove", first], ["read"], ["remove", second], ["read"],
+                                   ["clusters", [[9, 5.0, 5.0]], "add_charge", None], ["remove", [1]], ["read"]]))
+    out.append(dict(base, ops=[["array", [[1, 2, 3], [4, 5, 6]], "float64"], ["clusters", [[7, 5.0, 5.0]], "add_charge", None],
+                               ["remove", [0, 6]], ["remove", [2]], ["read"], ["remove", [1, 3, 4, 5]], ["read"]]))
+    return out
+
+
+def directed_geometry_cases():
+    """pixel sizes given after construction (Geometry setters in both orders, Processor.set): clusters at the centre of every pixel"""
+    out = []
+    for via in ("setter-vh", "setter-hv", "processor-vh", "processor-hv"):
+        for (h, w, h0, w0) in ((10.0, 5.0, 2.5, 18.0), (0.5, 7.5, 15.0, 1.0)):
+            rows, cols = 3, 4
+            cs = [[1 + i * cols + j, (i + 0.5) * h, (j + 0.5) * w] for i in range(rows) for j in range(cols)]
+            out.append({"det": "CCD", "rows": rows, "cols": cols, "h": h, "w": w, "geo_via": via, "geo0": [h0, w0],
+                        "ops": [["clusters", cs, "add_charge", None], ["read"], ["array", [[1] * cols] * rows, "float64"], ["read"]]})
+    return out
 
 
 def directed_layout_cases():
@@ -293,8 +326,27 @@ def run_impl(case):
     import numpy as np
     import pyx
 
-    det = pyx.make_detector(case["det"], case["rows"], case["cols"],
-                            geometry={"pixel_vert_size": case["h"], "pixel_horz_size": case["w"]})
+    via = case.get("geo_via")
+    if not via:
+        det = pyx.make_detector(case["det"], case["rows"], case["cols"],
+                                geometry={"pixel_vert_size": case["h"], "pixel_horz_size": case["w"]})
+    else:
+        # the detector is built with other pixel sizes; the sizes of the history are set afterwards through the
+        # Geometry setters or through Processor.set (what an observation / calibration does)
+        h0, w0 = case["geo0"]
+        det = pyx.make_detector(case["det"], case["rows"], case["cols"], geometry={"pixel_vert_size": h0, "pixel_horz_size": w0})
+        steps = [("pixel_vert_size", case["h"]), ("pixel_horz_size", case["w"])]
+        if via.endswith("hv"):
+            steps.reverse()
+        if via.startswith("processor"):
+            from pyxel.pipelines import DetectionPipeline, Processor
+
+            proc = Processor(detector=det, pipeline=DetectionPipeline())
+            for name, val in steps:
+                proc.set("detector.geometry." + name, val)
+        else:
+            for name, val in steps:
+                setattr(det.geometry, name, val)
     import random as _random
 
     ch = det.charge
@@ -519,10 +571,20 @@ def property_predicate(case, impl, mode):
             acc = [[Fraction(0)] * cols for _ in range(rows)]
             tracking, outside_since_reset = True, False
         elif op[0] == "remove":
-            if i > 0 and not impl["res"][i - 1]["frame"] or i == 0:
+            before = impl["res"][i - 1]["frame"] if i > 0 else []
+            if not before:
                 noop_removal = True      # no cluster existed: nothing is removed, the charge added so far must stay
             else:
                 tracking = False
+                if out == "ok":
+                    # the ids are the index labels shown by `.frame`: exactly the listed clusters go, the others stay as they are
+                    expect = [row for row in before if op[1] and row[0] not in op[1]]
+                    if r["frame"] != expect:
+                        gone = sorted(set(x[0] for x in before) - set(x[0] for x in r["frame"]))
+                        bad.append(("C14:remove-by-id-wrong-clusters",
+                                    f"op #{i} remove {op[1]} on a frame with ids {[x[0] for x in before]}: clusters with ids {gone} were removed "
+                                    f"(remaining ids {[x[0] for x in r['frame']]}, expected {[x[0] for x in expect]})", i))
+                        break
         elif op[0] == "read":
             if out == "IndexError" and mode == "boundscheck":
                 bad.append(("C14:outside-out-of-bounds",
@@ -540,7 +602,9 @@ def property_predicate(case, impl, mode):
                 diff = [(a, b, str(g[a][b]), str(acc[a][b])) for a in range(rows) for b in range(cols) if g[a][b] != acc[a][b]]
                 over = any(g[a][b] > acc[a][b] for a in range(rows) for b in range(cols))
                 key = "C14:outside-credited-elsewhere" if (outside_since_reset and over) else "C14:accounting"
-                if key == "C14:accounting" and noop_removal and not over:
+                if key == "C14:accounting" and case.get("geo_via") and any(o[0] == "clusters" for o in case["ops"][:i]):
+                    key = "C14:accounting-geometry-set-after-construction"
+                elif key == "C14:accounting" and noop_removal and not over:
                     key = "C14:remove-without-clusters-erases-array-charge"
                 elif key == "C14:accounting" and any(o[0] == "mutate" or (o[0] == "array" and len(o) > 3 and o[3] and "buf" in o[3]) for o in case["ops"][:i]):
                     key = "C14:accounting-caller-array-reused"
@@ -579,6 +643,7 @@ def body(ck: common.Check):
                                         ["clusters", [[4, 5.0, 5.0]], "add_charge", None], ["read"]])) for ids_ in ([], [0], [3, 7])]
     cases += [("remove", dict(b0, ops=[["clusters", [[4, 5.0, 5.0], [2, 15.0, 25.0]], "add_charge", None], ["read"], ["remove", ids_], ["read"],
                                         ["array", a0, "float64"], ["read"]])) for ids_ in ([], [0, 1], [0])]
+    cases += [("remove", c) for c in directed_remove_cases()] + [("geometry", c) for c in directed_geometry_cases()]
     lay = directed_layout_cases()
     cases += [("layout", c) for c in (lay if not quick else [c for k, c in enumerate(lay) if (c["rows"] != 4 and k % 2 == 0) or k % 7 == 0])]
     for stream, n in (("inside", 130 if quick else 3000), ("outside", 90 if quick else 1800), ("remove", 50 if quick else 800)):
@@ -605,6 +670,7 @@ def body(ck: common.Check):
         n_cl = sum(len(op[1]) for op in case["ops"] if op[0] == "clusters")
         n_arr = sum(1 for op in case["ops"] if op[0] == "array")
         ck.case(case, nontrivial=n_cl + n_arr >= 2, stream=stream)
+        ck.count(f"geometry_via={case.get('geo_via') or 'constructor'}")
         ck.count(f"sizes={'dyadic' if is_dyadic_size(case['h']) and is_dyadic_size(case['w']) else 'non-dyadic'}")
         ck.count("clusters_inside", sum(1 for op in case["ops"] if op[0] == "clusters" for _, v, u in op[1] if exact_bin(case, v, u)))
         ck.count("clusters_outside", sum(1 for op in case["ops"] if op[0] == "clusters" for _, v, u in op[1] if not exact_bin(case, v, u)))
@@ -642,7 +708,7 @@ def body(ck: common.Check):
     ck.rule = ("interleavings (3-11 ops) of add_charge_array (integer-valued float64/32/16 arrays, a few wrongly shaped), add_charge / "
                "add_charge_dataframe (clusters at pixel centres, on borders, one ulp either side of borders, at 0/-0.0/far edge, random inside; "
                "outside: -ulp, negative, exactly at / beyond the far edge, far away), .array reads, resets, removals by id / all, on the "
-               "charge bucket of CCD/CMOS/APD/MKID detectors of 1..5 x 1..5 pixels with dyadic and non-dyadic pixel sizes (0.001..1000); "
+               "charge bucket of CCD/CMOS/APD/MKID detectors of 1..5 x 1..5 pixels with dyadic and non-dyadic pixel sizes (0.001..1000) given to the constructor or set afterwards through the Geometry setters / Processor.set (both orders); several partial removals in a row (non-consecutive index labels); "
                "cluster batches as DataFrames with permuted column order / permuted keyword order (first and later batches); histories in which the caller "
                "re-adds the SAME ndarray object several times and overwrites / zeroes its own array after the call; plus every border/centre position of a 3x4 detector for 4 size pairs; non-trivial = at least two additions; distinct by canonical JSON")
     ck.assumptions = [
